@@ -39,6 +39,7 @@ type Config struct {
 	WitnessModels bool
 	DumpObligations func(id, script string)
 	Tier int
+	FoldRegex bool // regular-expression memberships and length bounds of a string go to the solver as one membership (Solver.DefineMemb)
 	InstrPkg string // package whose synchronisation operations are scheduling points of the native replay
 	witnessed *sync.Map
 }
@@ -404,14 +405,36 @@ func (in *Interp) branch(c *sym, tag string) bool {
 		p.taken = append(p.taken, d)
 		return v
 	}
-	rt := in.solver.Check(c.t)
+	// With string constraints a "sat" answer can take very long while the opposite side is refuted
+	// at once, and one refuted side settles the branch (the path itself is feasible): ask both
+	// sides under a short limit first.
+	rt, rf := "unknown", "unknown"
+	if in.cfg.FoldRegex && in.solver.HasNegMemb() {
+		// inclusion checks: most branches are refuted without the negative memberships that
+		// earlier branches left on the path, and those are what makes the queries expensive
+		if in.solver.RefutedRelaxed(c.t) {
+			rt = "unsat"
+		} else if in.solver.RefutedRelaxed("(not " + c.t + ")") {
+			rf = "unsat"
+		}
+	} else if len(in.strMax) > 0 {
+		rt = in.solver.QuickCheck(c.t, 1500)
+		if rt != "unsat" {
+			rf = in.solver.QuickCheck("(not "+c.t+")", 1500)
+		}
+	}
+	if rt == "unknown" && rf != "unsat" {
+		rt = in.solver.Check(c.t)
+	}
 	if rt == "unsat" {
 		// the false side must be feasible (the path is); recorded so that replays stay aligned
 		p.taken = append(p.taken, decision{0, 2, tag})
 		in.assertPC("(not " + c.t + ")")
 		return false
 	}
-	rf := in.solver.Check("(not " + c.t + ")")
+	if rf == "unknown" {
+		rf = in.solver.Check("(not " + c.t + ")")
+	}
 	if rf == "unsat" {
 		p.taken = append(p.taken, decision{1, 2, tag})
 		in.assertPC(c.t)
